@@ -180,6 +180,17 @@ def build():
     one(r"if\s+req\.sender\.is_stream\(\)\s*\{\s*self\.config\.response_timeout\s*=\s*self\.config\.streaming_response_timeout;\s*\}\s*else\s*\{\s*self\.config\.response_timeout\s*=\s*self\.config\.single_response_timeout;\s*\}",
         run, "Transport::run selects the timeout by request kind")
     defs.append(("run_selects_timeout_by_kind", "bool", "true"))
+    # every *_response_timeout field the run loop reads (other than the working copy it assigns
+    # itself) must be written by set_response_timeout
+    reads = set(re.findall(r"self\.config\.(\w*response_timeout)\b(?!\s*=[^=])", run))
+    writes_in_run = set(re.findall(r"self\.config\.(\w*response_timeout)\s*=[^=]", run))
+    written = set(re.findall(r"self\.(\w*response_timeout)\s*=[^=]", srt))
+    need = reads - writes_in_run
+    if not need:
+        raise GenError("Transport::run no longer reads a per-kind response timeout")
+    defs.append(("set_rt_covers_run_reads", "bool", "true" if need <= written else "false"))
+    fields = set(re.findall(r"^\s*(\w*response_timeout):\s*Duration,", impl_body(st, r"pub\s+struct\s+Config\s*\{"), re.M))
+    defs.append(("cfg_response_timeout_fields", "N", "%d%%N" % len(fields)))
     m = one(r"if\s+elapsed\s*" + OP + r"\s*self\.config\.response_timeout\s*\{\s*Self::error\(\s*Error::StreamReadTimeout,", run, "Transport::run read timeout test")
     defs.append(("run_timeout_fires", "N -> N -> bool", "fun elapsed timeout => " + cmp_fn(m.group(1), "elapsed", "timeout")))
     lim = fn_body(strip_comments(read("src/utils/config.rs")), "limit")
